@@ -862,7 +862,10 @@ func c14Base(r *rng, cmd *cliCmd, primary cliInput) cliChoice {
 			c.pos[i] = []string{r.pick(c14Locators)}
 		case "file":
 			if (cmd.name == "insert" && r.intn(3) == 0) || (cmd.name == "search" && r.intn(3) != 0) {
-				c.pos[i] = []string{r.pick([]string{"@acgt", "@atg", "@rtg", "@ggatcc", "@catn"})}
+				// "@aa", "@tt", "@aaa": plain queries whose occurrences OVERLAP — only there do -e (Search: every
+				// occurrence) and the default (Match: non-overlapping hits) differ for a query without an
+				// ambiguity code (seeded change W32-1: `exact && ambiguous` in the key of gts search)
+				c.pos[i] = []string{r.pick([]string{"@acgt", "@atg", "@rtg", "@ggatcc", "@catn", "@aa", "@tt", "@aaa"})}
 			} else {
 				c.sec[i] = c14Secondary(r, cmd.name, r.intn(3))
 			}
